@@ -241,6 +241,12 @@ def run(ctx):
     # set_state / set_at convert the given amount into the stored units, not the other way round
     from . import c06
     c06.rule_convert_args(ctx, ctx.py, "C13.CONVERT")
+    # shared clauses: cell index of a position (C15.RADIX / ENT) and the ctypes hand-over of state and chemostat map
+    from ..core import borrow
+    from . import c15
+    borrow(ctx, "C13", c15.rule_ent, ctx.py)
+    from .. import ffi
+    ffi.rule_sig(ctx, "C13.FFI", only={"mesh_state", "mesh_chstt"})
     from .. import lints
     lints.run(ctx, "C13", ctx.py, ["rdsystem", "value_processing"], truth_floor=30)
     ctx.assume("the values themselves are not decided; environment indices are range-checked by C20.EXTIDX")
